@@ -32,6 +32,17 @@ inductive Fault
     `none` = the call returned a negative value -/
 structure Src (σ : Type) where
   read : σ → Nat → Except Fault (Option Bytes × σ)
+  /-- what the source has told the LZX decoder about the total output length so far, if anything
+      (`cabd_sys_read` calls `lzxd_set_output_length` from inside a read when it has fetched the
+      folder's last block; every other source never does) -/
+  lzxLength : σ → Option Nat := fun _ => none
+
+/-- what one `decompress(state, n)` call of a stream decoder did (on a host whose `write`
+    accepts everything): status returned, bytes handed to `write` in order, state afterwards -/
+structure DecodeOut (τ : Type) where
+  err     : Err
+  written : Bytes
+  st      : τ
 
 /-- `EndGetI16` -/
 def le16 (a b : UInt8) : Nat := a.toNat + b.toNat * 256
